@@ -141,13 +141,20 @@ const char *rt_fn_name (const void *pc, char *buf, size_t n) {
 	return buf;
 }
 
+/* name of the nsync function performing an operation: the atm_* helpers of atomic.h are real frames under -fno-inline */
+const char *rt_op_fn (const struct rt_op *o, char *buf, size_t n) {
+	rt_fn_name (o->site, buf, n);
+	if (strncmp (buf, "atm_", 4) == 0 && o->psite) rt_fn_name (o->psite, buf, n);
+	return buf;
+}
+
 /* ------------------------------------------------------------------ violations */
 static const char *innermost_fn (struct fiber *f, char *buf, size_t n) {
 	int i;
 	if (!f) { snprintf (buf, n, "-"); return buf; }
 	for (i = f->fdepth - 1; i >= 0; i--) {
 		rt_fn_name (f->fstack[i], buf, n);
-		if (strncmp (buf, "nsync_", 6) == 0 || 1) return buf;
+		if (strncmp (buf, "atm_", 4) != 0) return buf;
 	}
 	snprintf (buf, n, "-");
 	return buf;
